@@ -321,7 +321,7 @@ func errTests(v ssa.Value) (out []struct {
 	blk     *ssa.BasicBlock
 	nilEdge int
 }) {
-	for _, ref := range *v.Referrers() {
+	for _, ref := range refsOf(v) {
 		bin, ok := ref.(*ssa.BinOp)
 		if !ok || (bin.Op != token.NEQ && bin.Op != token.EQL) {
 			continue
